@@ -66,6 +66,61 @@ def run(prog, chk):
                     chk.bad("C12.a", f, "slot-field-read-without-state-test:" + n["m"], f.where(i),
                             "`%s` is read from a slot entry whose state was not tested: entries marked `disconnected` during an emission stay in the "
                             "list until it ends and must be treated as absent (matching them resurrects / double-removes a connection)" % f.r(i)[:60])
+    # ------------------------------------------------------------------ C12.g: which states count as live
+    chk.rule("C12.g", "FIN: the state tests that guard a slot entry's fields admit exactly the live states: connected only where the slot is "
+                      "invoked (emit), connected and connecting (everything but disconnected) where connections are matched or torn down", floor=12)
+    svals = {}
+    for f in cb + emits:
+        for n in f.nodes:
+            if n["k"] == "DeclRefExpr" and n["ref"].get("dk") == "enumconst" and n["ref"].get("q", "").startswith("Callback::Emitter::Slot::"):
+                svals[n["ref"]["n"]] = n["ref"]["v"]
+    if set(svals) >= {"connected", "connecting", "disconnected"}:
+        names = {v: k for k, v in svals.items()}
+        for f in emits + cb:
+            if f.name == "Callback::connect" or f.name.endswith("~SignalActivation") or f.short == "sweep":
+                continue
+            want = {"connected"} if f in emits else {"connected", "connecting"}
+            seen_sets = {}
+            for i, n in enumerate(f.nodes):
+                if not (n["k"] == "MemberExpr" and n["m"] in ("receiver", "object", "slot") and n.get("mclsq") == "Callback::Emitter::Slot"):
+                    continue
+                p = f.node_pos(i)
+                if p is None:
+                    continue
+                atoms = [a for a in fin.dominating_atoms(f, p)]
+                keys_ = set()
+                for a in atoms:
+                    x_ = a[1] if a[0] == "case" else a[0]
+                    for y_ in f.desc(x_):
+                        if f.nodes[y_]["k"] == "MemberExpr" and f.nodes[y_].get("m") == "state" and f.nodes[y_].get("mclsq") == "Callback::Emitter::Slot":
+                            keys_.add(fin.key(f, y_))
+                if not keys_:
+                    continue
+                live = set()
+                for nm_, v_ in svals.items():
+                    val = {k_: v_ for k_ in keys_}
+                    ok_ = True
+                    for a in atoms:
+                        if a[0] == "case":
+                            r_ = fin.eval_expr(f, a[1], val)
+                            if r_ is not None and r_ != a[2]:
+                                ok_ = False
+                        else:
+                            r_ = fin.eval_expr(f, a[0], val)
+                            if r_ is not None and bool(r_) != a[1]:
+                                ok_ = False
+                    if ok_:
+                        live.add(nm_)
+                seen_sets.setdefault(frozenset(live), i)
+            for live, i in seen_sets.items():
+                if set(live) == want:
+                    chk.ok("C12.g", f, "slot fields used for states %s" % sorted(live), f.where(i), "valuation of the dominating state tests", evals=3)
+                else:
+                    chk.bad("C12.g", f, "slot-liveness-set:" + "+".join(sorted(live)), f.where(i),
+                            "here a slot entry is treated as present for the states %s, it must be %s: %s" % (
+                                sorted(live), sorted(want),
+                                "a slot connected during the running emission is skipped, its listener record outlives the emitter" if "connecting" in want - set(live)
+                                else "an entry that is not (yet) connected is invoked / matched"))
     # ------------------------------------------------------------------ C12.b
     for f in cb:
         for c in q.calls(f):
